@@ -69,6 +69,12 @@ def handle (st : Option SCase) (args : List String) : Option SCase × String :=
     | some g =>
       let vs := (splitList vars ';').filterMap parseVar
       (st, pepsOut (callCircMixed g seq.toList vs ((splitList deny ',').map String.toList)))
+  | ["cvcmi", seq, vars, rule, exc, misc, minMw, minLen, maxLen, w2f, deny, canon] =>
+    match mkCfg rule exc misc minMw minLen maxLen "0" w2f canon with
+    | none => (st, "bad-rule")
+    | some g =>
+      let vs := (splitList vars ';').filterMap parseVar
+      (st, pepsOut (callCircMixedInFrame g seq.toList vs ((splitList deny ',').map String.toList)))
   | ["ref", seq, coding, orfStart, orfEnd, startNF, endNF, sec,
       rule, exc, misc, minMw, minLen, maxLen, sect, w2f] =>
     match mkCfg rule exc misc minMw minLen maxLen sect w2f "" with
